@@ -2713,6 +2713,8 @@ def explore(repo: Repo, fn, args: list, kwargs: Optional[dict] = None, max_paths
     """Run `fn` (a Closure/Bound/ClassRef) on symbolic args along every decision vector."""
     outcomes: List[Outcome] = []
     work: List[List[bool]] = [[]]
+    import os as _os, time as _time
+    t_start, budget = _time.time(), float(_os.environ.get("VERIF_EXPLORE_BUDGET", "300"))
     if getattr(Interp, "_modcache_repo", None) is not repo:
         Interp._modcache = {}
         Interp._modcache_repo = repo
@@ -2745,6 +2747,8 @@ def explore(repo: Repo, fn, args: list, kwargs: Optional[dict] = None, max_paths
             outcomes[-1].args = a
         if len(outcomes) + len(work) > max_paths:
             raise AnalysisError(f"symbolic exploration exceeded {max_paths} paths")
+        if work and _time.time() - t_start > budget:
+            raise AnalysisError(f"symbolic exploration exceeded its time budget ({int(budget)} s, {len(outcomes)} paths done, {len(work)} pending)")
     return outcomes
 
 
